@@ -192,6 +192,13 @@ def rule_layout(program, ctx, prop=P, rid="C02.layout"):
                 ctx.ok(rid, st, f"{st.target.id} < {lt} fits {N} bytes")
             else:
                 ctx.bad(finding_at(prop, rid, st, f"NostrQuery.{st.target.id} is not bounded below 2**{8*N}: to_bytes({N}) raises OverflowError inside the scanner"))
+    tc = program.func("nostr_relay.storage.kv:TagIndex.convert")
+    ys = [y.value for y in ast.walk(tc) if isinstance(y, ast.Yield) and y.value is not None]
+    if ys and all(ast.unparse(y) == "self.to_key((tag[0], str(tag[1])))" for y in ys):
+        ctx.ok(rid, tc, "TagIndex.convert writes exactly to_key((name, str(value))) - the key the planner seeks with to_key on the filter value")
+    else:
+        ctx.bad(finding_func(prop, rid, tc, f"TagIndex.convert writes `{[ast.unparse(y)[:50] for y in ys]}`: the write side and the query side (TagIndex.to_key on the filter's value) no longer "
+                             "build the same key, e.g. long values are truncated on write but not on lookup", text="def convert(...) :: key"))
     for cname, expect in (("CreatedIndex", 4), ("KindIndex", 4), ("AuthorKindIndex", 4)):
         fn = program.func(f"nostr_relay.storage.kv:{cname}.to_key")
         ws = [c.args[0].value for c in ast.walk(fn) if isinstance(c, ast.Call) and isinstance(c.func, ast.Attribute) and c.func.attr == "to_bytes" and c.args and isinstance(c.args[0], ast.Constant)]
